@@ -9,6 +9,7 @@ import (
 	"runtime/debug"
 	"runtime/pprof"
 	"strconv"
+	"strings"
 
 	"verif/harness/checks"
 	"verif/harness/ev"
@@ -64,7 +65,15 @@ func main() {
 	func() {
 		defer func() {
 			if p := recover(); p != nil {
-				fmt.Printf("HARNESS-ERROR: check %s panicked: %v\n%s\n", id, p, debug.Stack())
+				text := fmt.Sprintf("%v\n%s", p, debug.Stack())
+				if where := libraryPanic(text); where != "" {
+					// the code under test panicked in a call the check does not guard: no statement of any property
+					// survives that, and it is reported as a violation, not as a failure of the harness
+					path := ev.WriteCrash(id, tier, "uncaught-panic-in-library:"+where, text)
+					fmt.Printf("VIOLATION property=%s replay=%s\n  sig=uncaught-panic-in-library:%s\n  %s\n", id, path, where, strings.SplitN(text, "\n", 2)[0])
+					os.Exit(1)
+				}
+				fmt.Printf("HARNESS-ERROR: check %s panicked: %s\n", id, text)
 				os.Exit(2)
 			}
 		}()
@@ -89,6 +98,39 @@ func main() {
 	os.Exit(rc)
 }
 
+// libraryPanic inspects a panic report (value + goroutine stack, possibly nested from a worker) and returns the
+// library function in which the panic was raised, or "" if the innermost non-runtime frame is harness code.
+func libraryPanic(text string) string {
+	lines := strings.Split(text, "\n")
+	for i := 0; i < len(lines); i++ {
+		if !strings.HasPrefix(lines[i], "panic(") {
+			continue
+		}
+		for j := i + 1; j < len(lines); j++ {
+			l := lines[j]
+			if l == "" || strings.HasPrefix(l, "\t") || strings.HasPrefix(l, " ") {
+				continue
+			}
+			if strings.HasPrefix(l, "runtime.") || strings.HasPrefix(l, "panic(") || strings.HasPrefix(l, "goroutine ") || strings.HasPrefix(l, "reflect.") {
+				continue
+			}
+			if strings.HasPrefix(l, "github.com/influxdata/influxql.") {
+				fn := strings.TrimPrefix(l, "github.com/influxdata/influxql.")
+				if k := strings.LastIndex(fn, "("); k > 0 {
+					fn = fn[:k]
+				}
+				return fn
+			}
+			// standard-library frames (regexp, strconv, sort ...) between the panic and the library: keep looking
+			if !strings.Contains(l, "verif/harness") && !strings.HasPrefix(l, "main.") {
+				continue
+			}
+			return ""
+		}
+	}
+	return ""
+}
+
 func replay(path string) int {
 	b, err := os.ReadFile(path)
 	if err != nil {
@@ -99,6 +141,10 @@ func replay(path string) int {
 	if err := json.Unmarshal(b, &rf); err != nil {
 		fmt.Println("HARNESS-ERROR:", err)
 		return 2
+	}
+	if strings.HasPrefix(rf.Sig, "uncaught-panic-in-library:") {
+		fmt.Printf("crash record of %s (%s): the library panicked in a call the check does not guard; re-run `./check %s %s` to see whether it still does.\n%s\n", rf.Property, rf.Sig, rf.Property, rf.Tier, rf.Detail)
+		return 0
 	}
 	c := checks.Get(rf.Property)
 	if c == nil || c.Replay == nil {
